@@ -21,16 +21,18 @@ LEVEL_TEXT = ('Partial. Coq theorems over hand models tied to the source by exac
               'of the second mesh are shifted and nothing is lost; with equal names members ARE lost (C13_combine_name_clash_refuted, '
               'known finding F8); (4) reader index arithmetic: 1-based to 0-based in range and one-to-one, blocks are consecutive '
               'ranges covering all elements, the 6-node permutation maps Exodus rows to the native vertex/face layout. '
-              'NOT proved: order elevation (conformity, no duplicate/unused nodes, affine placement) -- only evaluated on the '
+              '(5) order elevation, numbering only: the ids given to vertex / (edge,k) / (element,k) slots are exactly 0..nV+nE(p-1)+nT*nInt-1, each once, '
+              'reversed for the right element (slot contents compared with the implementation). NOT proved: that every slot is written at the '
+              'reference element\'s positions (conformity of the connectivity) and affine placement of coordinates -- only evaluated on the '
               'implementation\'s elevated meshes (orders 2..5, with and without bubble) as tests; netCDF4 is not installed, so the '
               'Exodus reader is executed against an in-memory stand-in for netCDF4.Dataset, not against real files.')
 TECHNIQUE = 'Coq proof over hand models (nat/Z/list; coordinates over R in theorems) + vm_compute correspondence with exact integer comparison'
 GEN = []
-TARGETS = ['model/M_C13_Struct.vo', 'model/M_C13_Edges.vo', 'model/M_C13_Combine.vo', 'model/M_C13_Read.vo',
+TARGETS = ['model/M_C13_Elevate.vo', 'proofs/L_C13_Elevate.vo', 'model/M_C13_Struct.vo', 'model/M_C13_Edges.vo', 'model/M_C13_Combine.vo', 'model/M_C13_Read.vo',
            'proofs/L_C13_Struct.vo', 'proofs/L_C13_Edges.vo', 'proofs/L_C13_Combine.vo', 'proofs/L_C13_Read.vo', 'proofs/L_C13_Top.vo']
 COQ_FILES = ['base/Num.v', 'model/M_C13_Struct.v', 'model/M_C13_Edges.v', 'model/M_C13_Combine.v', 'model/M_C13_Read.v',
              'proofs/L_C13_Struct.v', 'proofs/L_C13_Edges.v', 'proofs/L_C13_Combine.v', 'proofs/L_C13_Read.v', 'proofs/L_C13_Top.v',
-             'props/P_C13.v']
+             'model/M_C13_Elevate.v', 'proofs/L_C13_Elevate.v', 'props/P_C13.v']
 TRUSTED = ['Coq 8.16.1 kernel + vm_compute (no native_compute)',
            'hand-written models coq/model/M_C13_*.v, tied by exact comparison of connectivity, edge tables, merged meshes and reader outputs',
            'harness: exact float -> rational conversion of coordinates, SciPy Delaunay as a generator of valid triangulations',
@@ -44,7 +46,7 @@ RULE = ('cases: structured sizes 2..7 x 2..7 with random extents; random Delauna
         'side-set names (distinct or clashing) through combine_mesh; abstract Exodus descriptions (tri3/tri6, 1..3 blocks, named and unnamed sets) '
         'and JSON files through the readers; elevation orders 2..5 with and without bubble (tests).  Non-trivial = at least 2 elements; '
         'distinct = distinct inputs')
-IMPORTS = ['From OV.model Require Import M_C13_Struct M_C13_Edges M_C13_Combine M_C13_Read.']
+IMPORTS = ['From OV.model Require Import M_C13_Struct M_C13_Edges M_C13_Combine M_C13_Read M_C13_Elevate.']
 NAMES = ['block_0', 'left', 'right', 'top', 'bottom', 'all', 'inner', 'b1', 'b2']
 
 
@@ -92,6 +94,8 @@ def delaunay_mesh(r, npts, hole=False, rotate=True, flip_one=False):
     if flip_one and tris:
         k = r.randrange(len(tris))
         tris[k] = [tris[k][0], tris[k][2], tris[k][1]]
+    if len(tris) < 2 and not hole:          # degenerate draw: try again (deterministic, same stream)
+        return delaunay_mesh(r, npts + 1, hole, rotate, flip_one)
     return pts, tris
 
 
@@ -618,7 +622,7 @@ def part_readers(ctx, model_ok):
 
 
 # ------------------------------------------------------------------------------------------ 5. order elevation (tests only)
-def part_elevate(ctx):
+def part_elevate(ctx, model_ok=False):
     import numpy as np
     import jax.numpy as jnp
     from optimism import Mesh
@@ -633,6 +637,7 @@ def part_elevate(ctx):
             c, t = Mesh.create_structured_mesh_data(r.randrange(2, 4), r.randrange(2, 4), [0., 1.], [0., 2.])
             pts, tris = np.asarray(c), np.asarray(t).tolist()
         todo.append((order, bubble, pts, tris))
+    exprs, slots = [], []
     for order, bubble, pts, tris in todo:
         base = Mesh.construct_mesh_from_basic_data(jnp.array(pts), jnp.array(tris, dtype=jnp.int64), {'b': jnp.arange(len(tris))},
                                                    None, {'s': jnp.array([[0, 0]])})
@@ -665,9 +670,23 @@ def part_elevate(ctx):
             bad.append('two nodes share the same position (duplicate nodes)')
         if np.asarray(m.conns[:, np.asarray(pe.vertexNodes)]).tolist() != tris:
             bad.append('vertex columns do not reproduce the simplex connectivity')
+        # slot -> id numbering of the implementation, to be compared with the model (L1)
+        left = [conns[tl, faces[pl][1:-1]].tolist() for (tl, pl, tr, pr) in np.asarray(ed).tolist()]
+        right = [conns[tr, faces[pr][1:-1]].tolist() if tr >= 0 else list(range(len(pts) + e * m1, len(pts) + (e + 1) * m1))[::-1]
+                 for e, (tl, pl, tr, pr) in enumerate(np.asarray(ed).tolist())]
+        inter = conns[:, np.asarray(pe.interiorNodes)].tolist() if nint else []
+        slots.append([i for l in left for i in l] + [i for l in right for i in l] + [i for l in inter for i in l])
+        exprs.append('enc_elev %d %d %d %d %d' % (len(pts), len(ec), len(tris), m1, nint))
         for b in bad:
             ctx.fail('conclusion', 'order elevation (order %d%s, %d elements): %s' % (order, ' bubble' if bubble else '', len(tris), b),
                      case=dict(part='elevate', order=order, bubble=bubble, coords=np.asarray(pts).tolist(), conns=tris), concrete=True)
+    if model_ok:
+        res = C.coq_eval(IMPORTS, exprs, 'C13v', shard=40)
+        for (order, bubble, pts, tris), want, got in zip(todo, slots, res):
+            if got != want:
+                ctx.fail('correspondence', 'order elevation (order %d%s): the ids in the (edge,k)/(element,k) slots differ from the model numbering'
+                         % (order, ' bubble' if bubble else ''), case=dict(part='elevate', order=order, bubble=bubble, conns=tris))
+            ctx.count('model_vs_impl_comparisons')
 
 
 # ------------------------------------------------------------------------------------------ driver interface
@@ -677,7 +696,7 @@ def correspondence(ctx, model_ok):
     part_edges(ctx, model_ok)
     part_combine(ctx, model_ok)
     part_readers(ctx, model_ok)
-    part_elevate(ctx)
+    part_elevate(ctx, model_ok)
     ctx.cov['parts'] = ['structured', 'edges', 'combine', 'readers(exodus in-memory, json files)', 'elevation (tests only)']
 
 
